@@ -84,14 +84,14 @@ structure Cfg where
   -- The last three flags do not touch the traversal. In the model a filter fragment carries a predicate;
   -- these flags say WHICH predicate a script denotes for an evaluator when the script reads from `$`. They are
   -- interpreted where scripts become predicates (`FilterSpec.filterOf`, `Driver.rootFor`), not in this file.
-  /-- script.go `evalWithRoot` evaluates a path operand with `x.Get(v)` / `x.FirstFound(v)`, and Get hands its
+  /-- (before 22c4424) script.go `evalWithRoot` evaluates a path operand with `x.Get(v)`, and Get hands its
   own argument to the filters of that path as their root: a `$` inside a filter nested in an `@`-path of a
   script is the element under test, not the query argument (RFC 9535 §2.2) -/
   nestedFilterRoot : Bool := true
-  /-- filter.go `Filter.locate`: `f.evalWithRoot([]any{}, data, nil)` — the script is evaluated with a nil root,
+  /-- (before 049a508) filter.go `Filter.locate`: `f.evalWithRoot([]any{}, data, nil)` — the script is evaluated with a nil root,
   every `$…` operand is nothing (`$` alone is null) -/
   locFilterRootNil : Bool := true
-  /-- filter.go `Filter.Walk`: `f.Match(v)`, and script.go `Match` passes the tested element as the root -/
+  /-- (before 049a508) filter.go `Filter.Walk`: `f.Match(v)`, and script.go `Match` passes the tested element as the root -/
   walkFilterRootSelf : Bool := true
   deriving Inhabited
 
@@ -102,16 +102,17 @@ def Cfg.original : Cfg := {}
 `descentSiblings` baff053 · `innerEmptySlice` 0e0caaf · `locNegEnd`, `locEmptyArray`, `locateRoot` fa2ed77 ·
 `walkDescentNoSelf` 5d79291 · `nodesUnionNil`, `nodesFilterRev`, `firstNodeLast`, `nodesFilterNull` 360668e ·
 `hasTypedMap`, `hasTypedDescent` 21977aa (1af5385, FirstFound on Indexed, had no flag) ·
-`firstTypedWildOne` 6d09ec9 · `walkTypedArray` 6f19325 · `typedMapWild` 927d89c · `typedObjFilter` c654348.
+`firstTypedWildOne` 6d09ec9 · `walkTypedArray` 6f19325 · `typedMapWild` 927d89c · `typedObjFilter` c654348 ·
+`locFilterRootNil`, `walkFilterRootSelf` 049a508 · `nestedFilterRoot` 22c4424.
 Still present, both pinned by the suite: `locStartClamp` (TestExprLocateAny: `a[5:0:-1]`), `firstTypedSlice`
-(TestExprFirst/TestExprHas: `$[1:1][0]` on typed data); and the three script-root flags `nestedFilterRoot`,
-`locFilterRootNil`, `walkFilterRootSelf` (found when filters reading from `$` were added to the run). `Gen.JpathFacts` reads the same flags off the source;
+(TestExprFirst/TestExprHas: `$[1:1][0]` on typed data). `Gen.JpathFacts` reads the same flags off the source;
 `C11.pinned_is_source` ties the two. -/
 def Cfg.pinned : Cfg :=
   { innerEmptySlice := false, descentSiblings := false, locNegEnd := false, locEmptyArray := false,
     locateRoot := false, walkDescentNoSelf := false, nodesUnionNil := false, nodesFilterRev := false,
     firstNodeLast := false, nodesFilterNull := false, hasTypedMap := false, hasTypedDescent := false,
-    firstTypedWildOne := false, walkTypedArray := false, typedMapWild := false, typedObjFilter := false }
+    firstTypedWildOne := false, walkTypedArray := false, typedMapWild := false, typedObjFilter := false,
+    nestedFilterRoot := false, locFilterRootNil := false, walkFilterRootSelf := false }
 
 /-- every deviation off -/
 def Cfg.fixed : Cfg :=
